@@ -783,6 +783,76 @@ fn gen_checksummed(strings: &[String], short_len: usize) -> Vec<Case> {
 
 /// A token that has to be a leaf (number, key, hash, constant) given children of its own: after
 /// every leaf token of every valid string, one of a few bracketed argument lists is inserted.
+/// Arity edits: every node of every source string with one argument removed, one argument
+/// repeated, and all arguments removed (parsers check arities before they index into children).
+fn gen_arity_edits(strings: &[String]) -> Vec<Case> {
+    let mut srcs: Vec<String> = strings.iter().filter(|s| s.len() <= 90).cloned().collect();
+    srcs.extend(
+        [
+            "and(pk(A),pk(B))",
+            "or(pk(A),pk(B))",
+            "or(3@pk(A),1@and(pk(B),older(5)))",
+            "thresh(2,pk(A),pk(B),pk(C))",
+            "and(pk(A),or(pk(B),and(older(5),sha256(0102030405060708090a0b0c0d0e0f101112131415161718191a1b1c1d1e1f20))))",
+            "wsh(andor(pk(A),pk(B),pk(C)))",
+            "wsh(multi(2,A,B,C))",
+            "sh(sortedmulti(1,A,B))",
+            "tr(A,{pk(B),{pk(C),multi_a(1,D,E)}})",
+            "wsh(thresh(2,pk(A),s:pk(B),s:pk(C)))",
+        ]
+        .iter()
+        .map(|s| s.to_string()),
+    );
+    let mut out = std::collections::BTreeSet::new();
+    for s in &srcs {
+        let ch: Vec<char> = s.chars().collect();
+        // every '(' or '{' opens an argument list: find its top-level commas and its closing bracket
+        for (i, c) in ch.iter().enumerate() {
+            if *c != '(' && *c != '{' {
+                continue;
+            }
+            let mut depth = 0i32;
+            let mut cuts = vec![i];
+            let mut close = None;
+            for j in i..ch.len() {
+                match ch[j] {
+                    '(' | '{' => depth += 1,
+                    ')' | '}' => {
+                        depth -= 1;
+                        if depth == 0 {
+                            close = Some(j);
+                            break;
+                        }
+                    }
+                    ',' if depth == 1 => cuts.push(j),
+                    _ => {}
+                }
+            }
+            let close = match close {
+                Some(c) => c,
+                None => continue,
+            };
+            cuts.push(close);
+            let args: Vec<String> = cuts.windows(2).map(|w| ch[w[0] + 1..w[1]].iter().collect()).collect();
+            let head: String = ch[..=i].iter().collect();
+            let tail: String = ch[close..].iter().collect();
+            let mut variants: Vec<Vec<String>> = vec![vec![]];
+            for k in 0..args.len() {
+                let mut v = args.clone();
+                v.remove(k);
+                variants.push(v);
+                let mut v = args.clone();
+                v.insert(k, args[k].clone());
+                variants.push(v);
+            }
+            for v in variants {
+                out.insert(format!("{}{}{}", head, v.join(","), tail));
+            }
+        }
+    }
+    out.into_iter().map(|s| scase(s, "arity-edit", 3000)).collect()
+}
+
 fn gen_leaf_with_children(strings: &[String]) -> Vec<Case> {
     let tails = ["()", "(A)", "(pk(A))", "(pk(A),pk(B))", "(TRIVIAL,TRIVIAL)", "(0)", "(1,2)", "{A,B}", "(("];
     let mut out = vec![];
@@ -1320,6 +1390,7 @@ pub fn run(tier: Tier) -> i32 {
     groups.push(("valid-strings", vs.iter().map(|s| scase(s.clone(), "valid-string", 3000)).collect()));
     groups.push(("checksummed", gen_checksummed(&vs, short_len.min(3))));
     groups.push(("leaf-with-children", gen_leaf_with_children(&vs)));
+    groups.push(("arity-edits", gen_arity_edits(&vs)));
     groups.push(("scaling", gen_scaling()));
     groups.push(("scripts", gen_scripts(script_len, script_nodes)));
     groups.push(("interpreter", gen_interp()));
